@@ -432,14 +432,17 @@ def assemble(group, items, units, preamble, canary=False):
     a.add(preamble, "preamble", "preamble", "preamble", [])
     a.add("// ---- extracted functions with spliced contracts")
     group_props = group.get("props", [])
+    modk = 0
     for it in items:
         if "vx_contract!" not in it["ftext"]:
             continue
         uc = units.get(it["id"])
         a.add("// from %s:%d-%d sha256=%s" % (it["file"], it["line_start"], it["line_end"], (it.get("sha256") or "")[:16]))
+        # one module per unit: Verus verifies modules in parallel
+        modk += 1
+        a.add("} // verus!\npub mod vxm_%d { use super::*; verus! {" % modk)
         splice_fn(a, it, uc, group_props)
-        if it["ftext"].lstrip().startswith("impl "):
-            pass
+        a.add("} } pub use vxm_%d::*;\nverus! {" % modk)
     if canary:
         a.add("// ---- vacuity canaries: each must FAIL")
         for it in items:
@@ -448,7 +451,10 @@ def assemble(group, items, units, preamble, canary=False):
             uc = units.get(it["id"])
             if uc is None or uc.canary == "none":
                 continue
+            modk += 1
+            a.add("} // verus!\npub mod vxm_%d { use super::*; verus! {" % modk)
             splice_fn(a, it, uc, group_props, canary=True)
+            a.add("} } pub use vxm_%d::*;\nverus! {" % modk)
     missing = [u for u in units if u not in [i["id"] for i in items]]
     if missing:
         raise Undecided("contracts for units not in the plan: %s" % missing)
@@ -458,7 +464,7 @@ def assemble(group, items, units, preamble, canary=False):
 
 def run_verus(path, multiple_errors=20, rlimit=None, extra=None, timeout=900):
     cmd = ["verus", path, "--output-json", "--time", "--error-format=json", "--triggers-mode", "silent",
-           "--multiple-errors", str(multiple_errors), "--num-threads", "8"]
+           "--multiple-errors", str(multiple_errors), "--num-threads", "12"]
     if rlimit:
         cmd += ["--rlimit", str(rlimit)]
     if extra:
@@ -515,6 +521,7 @@ def analyse(a, res):
         for m in res["out"]["times-ms"]["smt"]["smt-run-module-times"]:
             for f in m.get("function-breakdown", []):
                 name = f["function"].split("::", 1)[1] if "::" in f["function"] else f["function"]
+                name = re.sub(r"^vxm_\d+::", "", name)
                 fns[name] = {"success": f["success"], "ms": f["time-micros"] / 1000.0, "rlimit": f["rlimit"]}
     except Exception as e:
         undecided.append("cannot read function breakdown: %r" % e)
